@@ -132,7 +132,7 @@ def run(ctx):
              "time and memory budgets; non-trivial = circuit with a multi-qubit gate")
     sizes = [40, 64, 1000, 100000] if not ctx.quick else [64, 100000]
     n = 0
-    for _ in range(ctx.pick(10, 160)):
+    for _ in range(ctx.pick(10, 60)):
         k = rng.randint(2, 4)
         specs = gen.rand_circuit_spec(rng, k, 1, rng.randint(3, 10), max_ctrl=2, allow_mat=True, wide_angles=False)
         specs = [s for s in specs if s[0] != "measure_z"]
